@@ -10,6 +10,7 @@ pub const M_K: u16 = 16; // first token of a control statement
 pub const M_B: u16 = 32; // begin of a control-flow body
 pub const M_A: u16 = 64; // opener of an anonymous routine body
 pub const M_T: u16 = 128; // opener of a type body
+pub const M_I: u16 = 256; // identifier spelled like a contextual keyword
 
 #[derive(Debug, Clone, PartialEq)]
 pub struct GTok {
@@ -61,6 +62,7 @@ fn parse_marks(s: &str) -> u16 {
             'B' => M_B,
             'A' => M_A,
             'T' => M_T,
+            'I' => M_I,
             _ => panic!("bad mark {ch}"),
         };
     }
@@ -70,7 +72,7 @@ fn parse_marks(s: &str) -> u16 {
 fn split_marks(word: &str) -> (&str, u16) {
     if let Some(pos) = word.rfind('@') {
         let (a, b) = (&word[..pos], &word[pos + 1..]);
-        if !a.is_empty() && !b.is_empty() && b.chars().all(|c| "SDOCKBAT".contains(c)) {
+        if !a.is_empty() && !b.is_empty() && b.chars().all(|c| "SDOCKBATI".contains(c)) {
             return (a, parse_marks(b));
         }
     }
